@@ -408,8 +408,9 @@ func (c25) Execute(sc *engine.Scenario) *engine.Result {
 		solo[i] = in.t.points
 		in.m.GB.Cleanup() // every instance is released the way Run releases it
 		if w := loadWorkload(sc, fmt.Sprintf("i%d.", i)); !w.Audio && !w.Video {
-			// ... and once more by its owner (with no outputs attached a second release has nothing to do)
-			in.m.GB.Cleanup()
+			// ... and once more by its owner (with no outputs attached a second release has nothing to do;
+			// whether it is allowed at all is not this property's business, so a refusal is not judged)
+			machine.Protect(func() { in.m.GB.Cleanup() })
 			res.Probe("instance_released_twice")
 		}
 	}
